@@ -200,6 +200,28 @@ class Lib:
         return self._codes
 
 
+def state(v) -> dict:
+    """Plain attribute state of a library object for the harness's own bookkeeping, without going through
+    __getattr__ (Table/Schema/Not answer every name) and whether the class keeps a __dict__ or uses __slots__."""
+    try:
+        d = object.__getattribute__(v, "__dict__")
+    except AttributeError:
+        d = None
+    if isinstance(d, dict):
+        return d
+    out = {}
+    for k in type(v).__mro__:
+        slots = k.__dict__.get("__slots__", ())
+        if isinstance(slots, str):
+            slots = (slots,)
+        for n in slots:
+            try:
+                out[n] = object.__getattribute__(v, n)
+            except AttributeError:
+                pass
+    return out
+
+
 def get() -> Lib:
     global _L
     if _L is None:
